@@ -16,6 +16,12 @@ bool needsLog(const LogFacility, const LogLevel) { return false; }
 void logWrite(const LogFacility, const LogLevel, const char*, ...) {}
 void logWrite(const char*, const LogLevel, const char*, ...) {}
 }
+extern "C" time_t time(time_t* t) __THROW {   // referenced by virtual members that the vtable keeps alive; not used by find
+  static uint64_t now = 1000000;
+  now += vp_nondet_u8();
+  if (t) *t = static_cast<time_t>(now);
+  return static_cast<time_t>(now);
+}
 #include "lib/ebus/message.h"
 #include <new>
 using namespace ebusd;
